@@ -21,6 +21,8 @@ MANIFEST = {
             "3 extent^2 max(tan|lat|,0.05)/R for the documented local planar frame.",
     "technique": "bounded-exhaustive enumeration of a finite input lattice against an independent spherical reference model",
 }
+MANIFEST["text"] += " " + (
+    'Added after the seeding waves: two more segment-pair placements whose closest pair is an end point of one segment and an interior point of the other.')
 BUDGET = {"quick": 240, "thorough": 1500}
 RULE = ("cases = blocks (latitude, longitude, segment length); each block enumerates all bearings x query offsets x placements. "
         "states = distinct (primitive, input) configurations evaluated, transitions = oracle comparisons, "
